@@ -63,6 +63,11 @@ def model_line(line, impl_out):
             r = r[3:]
             o = "J.%s.%s.%s.zc" % (p[1], p[2], p[3])     # the trailing field makes the model side echo the "zc~" marker
             p = o.split(".")
+        if p[0] == "I":
+            # a length field of a captured handshake datagram overwritten: for the model any change inside a handshake datagram
+            # (PcSys.wire_flip: WInit -> WBadInit); "nodg" (no such datagram / part / change) is an injection of nothing
+            o = ("J.30000.%s.%s" % (p[2], p[3])) if r == "nodg" else ("F.%s.%s.%s.0.0" % (p[1], p[2], p[3]))
+            p = o.split(".")
         if p[0] == "A":
             m = re.match(r"a\d+\[(.*)\]$", r)
             inner = m.group(1).split("|") if m and m.group(1) else []
